@@ -156,7 +156,9 @@ impl Tracker {
                 self.status = Status::Ready;
                 Some(previous)
             }
-            ScheduleReason::FreshData if previous == PauseReason::Caughtup => {
+            // Fresh data also stands for replies waiting to be flushed to this connection:
+            // they must not wait for the client to free its inflight window
+            ScheduleReason::FreshData if previous != PauseReason::Busy => {
                 self.status = Status::Ready;
                 Some(previous)
             }
